@@ -1,3 +1,306 @@
 package main
 
-func generate(tier string, seed uint64) []string { return nil }
+import (
+	"fmt"
+	"strings"
+
+	"verifharness/internal/rng"
+)
+
+// Script generation. Abstract symbols are mapped to the wire vocabulary of the subprotocol; every
+// valid subscription gets a fresh tag (its operation name), by which resolver events address it.
+//
+//	I init   Ib init with payload 42   Ir init refused by InitFunc   Io init with payload {}
+//	S<id> start/subscribe (valid)   B<id> start with payload 42   Q<id> syntax error   U<id> user-kind refusal
+//	N<id> start without payload     X<id> stop/complete
+//	P ping  O pong  T connection_terminate  W a server->client type (data / next)  K connection_ack  Y unknown type
+//	G not JSON   A abrupt close   Z close frame   C server cancel   M init timeout wait   ? snapshot
+//	e<j> emit  d<j> end  r<j> err  a<j> adderr  p<j> panic      (j-th valid start of the script)
+//	a trailing ~ = no settle after the step
+type builder struct {
+	proto string
+	tags  int
+	out   []string
+}
+
+func (b *builder) wire(sym byte) string {
+	gq := b.proto == "gqlws"
+	switch sym {
+	case 'I':
+		return "connection_init"
+	case 'S':
+		if gq {
+			return "start"
+		}
+		return "subscribe"
+	case 'X':
+		if gq {
+			return "stop"
+		}
+		return "complete"
+	case 'P':
+		return "ping"
+	case 'O':
+		return "pong"
+	case 'T':
+		return "connection_terminate"
+	case 'W':
+		if gq {
+			return "data"
+		}
+		return "next"
+	case 'K':
+		return "connection_ack"
+	}
+	return "bogus"
+}
+
+func (b *builder) add(sym string) {
+	race := strings.HasSuffix(sym, "~")
+	sym = strings.TrimSuffix(sym, "~")
+	id := "-"
+	if len(sym) > 1 && sym[0] != 'I' {
+		id = sym[1:]
+		if id == "_" {
+			id = "-"
+		}
+	}
+	var t string
+	switch sym[0] {
+	case 'I':
+		pl := map[string]string{"I": "n", "Ib": "num", "Ir": "rej", "Io": "obj"}[sym]
+		t = fmt.Sprintf("m:connection_init:-:%s:0", pl)
+	case 'S':
+		t = fmt.Sprintf("m:%s:%s:sub:%d", b.wire('S'), id, b.tags)
+		b.tags++
+	case 'B':
+		t = fmt.Sprintf("m:%s:%s:num:0", b.wire('S'), id)
+	case 'Q':
+		t = fmt.Sprintf("m:%s:%s:badq:0", b.wire('S'), id)
+	case 'U':
+		t = fmt.Sprintf("m:%s:%s:pq:99", b.wire('S'), id)
+	case 'N':
+		t = fmt.Sprintf("m:%s:%s:n:0", b.wire('S'), id)
+	case 'X':
+		t = fmt.Sprintf("m:%s:%s:n:0", b.wire('X'), id)
+	case 'P', 'O', 'T', 'K', 'Y':
+		t = fmt.Sprintf("m:%s:-:n:0", b.wire(sym[0]))
+	case 'W':
+		t = fmt.Sprintf("m:%s:1:n:0", b.wire('W'))
+	case 'G':
+		t = "g"
+	case 'A':
+		t = "a"
+	case 'Z':
+		t = "z"
+	case 'C':
+		t = "sc"
+	case 'M':
+		t = "it"
+	case '?':
+		b.out = append(b.out, "?")
+		return
+	case 'e', 'd', 'r', 'a', 'p':
+		cmd := map[byte]string{'e': "emit", 'd': "end", 'r': "err", 'a': "adderr", 'p': "panic"}[sym[0]]
+		t = fmt.Sprintf("r:%s:%s", cmd, sym[1:])
+	default:
+		panic("unknown symbol " + sym)
+	}
+	if race {
+		t += "~"
+	}
+	b.out = append(b.out, t)
+}
+
+func script(proto, cfg string, syms ...string) string {
+	b := &builder{proto: proto}
+	for _, s := range syms {
+		b.add(s)
+	}
+	if cfg == "" {
+		cfg = "-"
+	}
+	return proto + " " + cfg + " " + strings.Join(b.out, " ")
+}
+
+func words(alpha []string, n int, f func([]string)) {
+	cur := make([]string, n)
+	var rec func(i int)
+	rec = func(i int) {
+		if i == n {
+			f(cur)
+			return
+		}
+		for _, a := range alpha {
+			cur[i] = a
+			rec(i + 1)
+		}
+	}
+	rec(0)
+}
+
+func generate(tier string, seed uint64) []string {
+	var out []string
+	thorough := tier == "thorough"
+	protos := []string{"gqlws", "tws"}
+	first := []string{"I", "Ib", "Ir", "Io", "S1", "B1", "X1", "P", "O", "T", "W", "K", "Y", "G", "A", "Z", "C", "M"}
+	for _, p := range protos {
+		// ---- the init phase: every first message, alone and followed by an init / a start
+		for _, a := range first {
+			out = append(out, script(p, "t", a))
+			out = append(out, script(p, "", a, "I", "S1"))
+			out = append(out, script(p, "r", "C", a, "S1"))
+		}
+		// ---- exhaustive short conversations after a successful init
+		core := []string{"S1", "X1", "e0", "d0", "p0", "T", "C", "S2"}
+		wide := []string{"S1", "S2", "B1", "U1", "X1", "X2", "e0", "e1", "d0", "d1", "r0", "a0", "p0", "P", "W", "T", "G", "C", "A"}
+		maxCore, maxWide := 4, 2
+		if thorough {
+			maxCore, maxWide = 5, 3
+		}
+		for n := 1; n <= maxCore; n++ {
+			words(core, n, func(w []string) { out = append(out, script(p, "", append([]string{"I"}, w...)...)) })
+		}
+		for n := 1; n <= maxWide; n++ {
+			words(wide, n, func(w []string) {
+				out = append(out, script(p, "", append([]string{"I", "S1"}, w...)...))
+			})
+		}
+		// ---- directed adversarial shapes
+		for _, cfg := range []string{"", "s", "k", "op", "r", "sr"} {
+			dir := [][]string{
+				// duplicate id while the first operation is active
+				{"I", "S1", "S1", "e0", "e1", "X1", "?", "d0", "d1"},
+				{"I", "S1", "e0", "S1~", "e0", "d0"},
+				{"I", "S1", "B1", "e0", "d0"},
+				{"I", "S1", "U1", "e0", "d0"},
+				// id reuse after termination, with and without waiting
+				{"I", "S1", "d0", "S1", "e1", "d1"},
+				{"I", "S1", "d0~", "S1", "e1", "d1"},
+				{"I", "S1", "r0~", "S1~", "e1~", "d1"},
+				{"I", "S1", "p0~", "S1", "e1", "X1"},
+				{"I", "S1", "X1~", "S1", "e1", "d1"},
+				{"I", "B1", "S1", "e0", "d0", "Q1", "U1", "S1", "d1"},
+				// stop racing completion, close racing sends
+				{"I", "S1", "d0~", "X1"},
+				{"I", "S1", "X1~", "d0"},
+				{"I", "S1", "e0~", "X1~", "e0~", "d0"},
+				{"I", "S1", "e0~", "T"},
+				{"I", "S1", "e0~", "C"},
+				{"I", "S1", "S2", "e0~", "e1~", "C~", "e0~", "d1"},
+				{"I", "S1", "e0~", "A"},
+				{"I", "S1", "e0~", "Z"},
+				{"I", "S1", "e0~", "G"},
+				{"I", "S1", "S2", "e0~", "W~", "e1"},
+				{"I", "S1", "S2", "T~", "e0~", "e1"},
+				// errors and panics
+				{"I", "S1", "a0", "p0"},
+				{"I", "S1", "a0", "a0", "d0"},
+				{"I", "S1", "e0", "a0", "e0", "r0"},
+				{"I", "S1", "p0~", "X1"},
+				{"I", "S1", "S2", "p0~", "r1~", "T"},
+				// operations that outlive stop / close (stubborn resolvers) and must still be cancelled
+				{"I", "S1", "S2", "X1", "?", "T", "?", "d0", "d1"},
+				{"I", "S1", "S2", "C", "?", "e0", "d0", "d1"},
+				{"I", "S1", "X1", "X1", "e0", "d0"},
+				{"I", "S1", "X2", "e0", "d0"},
+				// burst without any settle
+				{"I~", "S1~", "S2~", "X1~", "e0~", "e1~", "T~"},
+				{"I~", "S1~", "S1~", "S1~"},
+				{"I~", "S1~", "X1~", "S1~", "X1~", "S1~"},
+				// messages queued behind a closing one
+				{"I", "S1", "T~", "S2~", "e1"},
+				{"I", "S1", "S1~", "S2~", "e1~", "e2"},
+				{"I", "W~", "S1~", "e0"},
+				// before / around init
+				{"S1", "I"}, {"I~", "I"}, {"T"}, {"C", "I", "S1", "e0"}, {"M", "I"}, {"Ir", "S1"}, {"Ib~", "S1"},
+				{"P", "I"}, {"O~", "I"},
+				// empty id, ping/pong chatter, long streams
+				{"I", "S_", "e0", "X_", "d0"},
+				{"I", "S_", "S_"},
+				{"I", "P", "O", "P~", "S1~", "P~", "e0", "d0"},
+				{"I", "S1", "e0", "e0", "e0", "e0", "e0", "e0", "e0", "e0", "d0"},
+				{"I", "S1", "S2", "S3", "e0~", "e1~", "e2~", "d2~", "d1~", "d0"},
+			}
+			for _, d := range dir {
+				c := cfg
+				if d[0] == "M" {
+					c += "t"
+				}
+				out = append(out, script(p, c, d...))
+			}
+		}
+	}
+	// ---- seeded random longer conversations, mostly valid
+	r := rng.New(seed ^ 0xC11)
+	nRandom := 600
+	if thorough {
+		nRandom = 6000
+	}
+	for i := 0; i < nRandom; i++ {
+		p := protos[r.Below(2)]
+		cfg := ""
+		if r.Below(4) == 0 {
+			if p == "gqlws" {
+				cfg += "k"
+			} else {
+				cfg += []string{"o", "p", "op"}[r.Below(3)]
+			}
+		}
+		if r.Below(5) == 0 {
+			cfg += "s"
+		}
+		if r.Below(5) == 0 {
+			cfg += "r"
+		}
+		var syms []string
+		valid := r.Below(10) != 0 // the malformed stream: 10%
+		if valid || r.Bool() {
+			syms = append(syms, "I")
+		}
+		n := 4 + r.Below(9)
+		if thorough {
+			n += r.Below(8)
+		}
+		started := 0
+		ids := []string{"1", "2", "3"}
+		for len(syms) < n {
+			var s string
+			k := r.Below(100)
+			switch {
+			case k < 22:
+				s = "S" + ids[r.Below(len(ids))]
+				started++
+			case k < 50 && started > 0:
+				s = "e" + fmt.Sprint(r.Below(started))
+			case k < 62 && started > 0:
+				s = []string{"d", "d", "r", "a", "p"}[r.Below(5)] + fmt.Sprint(r.Below(started))
+			case k < 74:
+				s = "X" + ids[r.Below(len(ids))]
+			case k < 80:
+				s = []string{"P", "O"}[r.Below(2)]
+			case k < 84:
+				s = []string{"B", "Q", "U", "N"}[r.Below(4)] + ids[r.Below(len(ids))]
+			case k < 86:
+				s = "?"
+			case valid:
+				continue
+			case k < 90:
+				s = []string{"T", "C"}[r.Below(2)]
+			case k < 94:
+				s = []string{"W", "K", "Y", "G", "I"}[r.Below(5)]
+			default:
+				s = []string{"A", "Z"}[r.Below(2)]
+			}
+			if s != "?" && r.Below(3) == 0 {
+				s += "~"
+			}
+			syms = append(syms, s)
+		}
+		if r.Below(3) == 0 {
+			syms = append(syms, []string{"T", "C", "A", "Z", "G"}[r.Below(5)])
+		}
+		out = append(out, script(p, cfg, syms...))
+	}
+	return out
+}
